@@ -2905,6 +2905,9 @@ impl Program<Name> {
     }
     // This runs the optimizations that are only done a single time
     pub fn run_once_pass(self) -> Self {
+        #[cfg(feature = "verif-hooks")]
+        crate::verif::opt_stage("run_once_pass", &self);
+
         // First pass is necessary to ensure fst_pair and snd_pair are inlined before
         // builtin_force_reducer is run
         let (program, context) = self
@@ -2963,6 +2966,9 @@ impl Program<Name> {
     }
 
     pub fn multi_pass(self) -> (Self, Context) {
+        #[cfg(feature = "verif-hooks")]
+        crate::verif::opt_stage("multi_pass", &self);
+
         // One O(n) walk gives inline_reducer exact occurrence counts for every
         // uniquely-bound name, replacing most per-binder body scans.
         let occurrences = OccurrenceTracker::new(&self.term);
@@ -3040,6 +3046,9 @@ impl Program<Name> {
     }
 
     pub fn clean_up_no_inlines(self) -> Self {
+        #[cfg(feature = "verif-hooks")]
+        crate::verif::opt_stage("clean_up_no_inlines", &self);
+
         self.traverse_uplc_with(true, false, &mut |id, term, _arg_stack, scope, context| {
             term.remove_no_inlines(id, vec![], scope, context);
         })
@@ -3047,6 +3056,9 @@ impl Program<Name> {
     }
 
     pub fn afterwards(self) -> Self {
+        #[cfg(feature = "verif-hooks")]
+        crate::verif::opt_stage("afterwards", &self);
+
         let (mut program, context) =
             self.traverse_uplc_with(true, false, &mut |id, term, arg_stack, scope, context| {
                 term.typed_list_convert_arg(id, arg_stack, scope, context);
@@ -3082,6 +3094,9 @@ impl Program<Name> {
 
     // This one doesn't use the context since it's complicated and traverses the ast twice
     pub fn builtin_curry_reducer(self) -> Self {
+        #[cfg(feature = "verif-hooks")]
+        crate::verif::opt_stage("builtin_curry_reducer", &self);
+
         let mut curried_terms = vec![];
         let mut id_mapped_curry_terms: IndexMap<CurriedName, (Scope, Term<Name>, usize)> =
             IndexMap::new();
